@@ -59,6 +59,9 @@ type Dec struct {
 	Op    int    `json:"op"`
 	Class string `json:"class"`
 	Fail  bool   `json:"fail,omitempty"`
+	// Kind of the injected failure: "" = 500 before any effect, "404" = 404 before any effect,
+	// "lost" = the request takes effect and the client gets 500
+	Kind string `json:"kind,omitempty"`
 }
 
 type E2ECase struct {
@@ -72,6 +75,11 @@ type E2ECase struct {
 	FaultPct  int     `json:"fault_pct"`
 	MaxFaults int     `json:"max_faults"`
 	Decisions []Dec   `json:"decisions,omitempty"`
+	DistinctPre bool  `json:"distinct_pre,omitempty"`
+	// FaultKinds: besides "500 before any effect" on the index exchanges also 404 on the index
+	// DELETE, a lost response of the index PUT (takes effect, answered 500) and failures of the
+	// operation's own manifest exchanges
+	FaultKinds bool `json:"fault_kinds,omitempty"`
 	// systematic exploration (replays use Decisions)
 	Explore   bool  `json:"-"`
 	Choices   []int `json:"-"`
@@ -87,6 +95,12 @@ type Event struct {
 	Fail    bool   `json:"fail,omitempty"`
 	PutList []int  `json:"put_list,omitempty"`
 	Cap     int32  `json:"cap"`
+	// Status the registry answered with; Fail = injected or (index DELETE) answered >= 400
+	Status int `json:"status,omitempty"`
+	Kind   string `json:"kind,omitempty"`
+	// Dropped: subjects whose referrers tag vanished with this exchange although it is not
+	// theirs (the deleted index manifest was shared: content-addressed)
+	Dropped []int `json:"dropped,omitempty"`
 }
 
 type OpResult struct {
@@ -121,7 +135,9 @@ type E2EResult struct {
 	FilterType  string
 	Live        []bool
 	IndexTagged [][]int
+	IndexArts   [][]string // artifact type of each entry of IndexTagged
 	Dangling    []string
+	DanglingOf  []int // per subject: index manifests once stored under its tag, still in the registry, not current
 	API         []Listing
 	Deadlock    bool
 }
@@ -187,7 +203,7 @@ var artTypes = []string{"", "application/vnd.example.sbom", "application/vnd.exa
 var cfgTypes = []string{"application/vnd.oci.image.config.v1+json", "application/vnd.example.sig", "application/vnd.example.cfg"}
 
 func genE2E(r *common.Rand, thorough bool) *E2ECase {
-	c := &E2ECase{Seed: r.U64(), SkipGC: r.Chance(1, 4), NSubjects: 1 + r.Intn(3)}
+	c := &E2ECase{Seed: r.U64(), SkipGC: r.Chance(1, 4), NSubjects: 1 + r.Intn(3), DistinctPre: r.Chance(1, 3)}
 	if r.Chance(1, 2) {
 		c.NSubjects = 1
 	}
@@ -222,7 +238,7 @@ func genE2E(r *common.Rand, thorough bool) *E2ECase {
 	}
 	for s := range c.PreIndex {
 		if len(c.PreIndex[s]) == 0 {
-			if r.Chance(1, 6) {
+			if r.Chance(1, 3) {
 				c.PreIndex[s] = []int{} // an empty index exists
 				if r.Chance(1, 2) {
 					c.PreIndex[s] = []int{-1}
@@ -272,6 +288,17 @@ func genE2E(r *common.Rand, thorough bool) *E2ECase {
 				k := common.Pick(r, cand)
 				used[k] = true
 				ops = append(ops, Op{ID: id, Kind: "delete", Man: k})
+				// the same manifest re-pushed (or deleted once more) concurrently: "every multiset
+				// of push/delete operations ... issued concurrently" includes same-manifest overlap
+				if i+1 < n && r.Chance(1, 5) {
+					id++
+					i++
+					kind := "push"
+					if r.Chance(1, 4) {
+						kind = "delete"
+					}
+					ops = append(ops, Op{ID: id, Kind: kind, Man: k})
+				}
 			} else {
 				var k int
 				var re []int
@@ -290,7 +317,16 @@ func genE2E(r *common.Rand, thorough bool) *E2ECase {
 			}
 			id++
 		}
+		cnt := map[int]int{}
 		for _, o := range ops {
+			cnt[o.Man]++
+		}
+		for _, o := range ops {
+			if cnt[o.Man] > 1 {
+				// outcome of a same-manifest race is decided by the schedule: keep it out of later rounds
+				live[o.Man] = false
+				continue
+			}
 			if o.Kind == "push" {
 				live[o.Man] = true
 			} else {
@@ -303,6 +339,7 @@ func genE2E(r *common.Rand, thorough bool) *E2ECase {
 	if r.Chance(1, 2) {
 		c.FaultPct = 10 + r.Intn(30)
 		c.MaxFaults = 1 + r.Intn(3)
+		c.FaultKinds = r.Chance(1, 2)
 	}
 	return c
 }
@@ -415,6 +452,7 @@ func runE2EInner(c *E2ECase, res *E2EResult) {
 	for _, k := range c.PreLive {
 		reg.PutManifest(repoName, mans[k].desc.MediaType, mans[k].content)
 	}
+	everIdx := make([][]digest.Digest, c.NSubjects)
 	for s, l := range c.PreIndex {
 		if l == nil {
 			continue
@@ -430,12 +468,24 @@ func runE2EInner(c *E2ECase, res *E2EResult) {
 			d.Annotations = c.Mans[k].Ann
 			descs = append(descs, d)
 		}
-		// the annotation keeps pre-existing indexes of different subjects byte-distinct
-		idx := ocispec.Index{Versioned: specs.Versioned{SchemaVersion: 2}, MediaType: ocispec.MediaTypeImageIndex, Manifests: descs,
-			Annotations: map[string]string{"org.example.pre": fmt.Sprint(s)}}
+		// exactly what oras-go writes (generateIndex): pre-existing indexes of different subjects
+		// with the same content - e.g. the empty index - are then ONE manifest in the registry;
+		// DistinctPre keeps them byte-distinct by an annotation
+		idx := ocispec.Index{Versioned: specs.Versioned{SchemaVersion: 2}, MediaType: ocispec.MediaTypeImageIndex, Manifests: descs}
+		if c.DistinctPre {
+			idx.Annotations = map[string]string{"org.example.pre": fmt.Sprint(s)}
+		}
 		body, _ := json.Marshal(idx)
 		tg, _ := remote.VerifBuildReferrersTag(subj[s].desc)
 		reg.PutManifest(repoName, ocispec.MediaTypeImageIndex, body, tg)
+		everIdx[s] = append(everIdx[s], digest.FromBytes(body))
+	}
+	var statusMu sync.Mutex
+	statusOf := map[int]int{}
+	reg.Done = func(ex *fakereg14.Exchange, st int) {
+		statusMu.Lock()
+		statusOf[ex.Seq] = st
+		statusMu.Unlock()
 	}
 	repo := newRepo(reg)
 	repo.SkipReferrersGC = c.SkipGC
@@ -518,6 +568,7 @@ func runE2EInner(c *E2ECase, res *E2EResult) {
 			}
 			var pick *parked
 			var fail bool
+			fkind := ""
 			followed := false
 			if dpos < len(c.Decisions) {
 				d := c.Decisions[dpos]
@@ -525,6 +576,7 @@ func runE2EInner(c *E2ECase, res *E2EResult) {
 					cl, _ := classify(p.ex)
 					if p.ex.Op == fmt.Sprintf("%04d", d.Op) && cl == d.Class {
 						pick, fail, followed = p, d.Fail, true
+						fkind = d.Kind
 						break
 					}
 				}
@@ -559,6 +611,17 @@ func runE2EInner(c *E2ECase, res *E2EResult) {
 				cl, _ := classify(pick.ex)
 				if strings.HasPrefix(cl, "idx-") && faults < c.MaxFaults && sched.Intn(100) < c.FaultPct {
 					fail = true
+					if c.FaultKinds {
+						switch {
+						case cl == "idx-put" && sched.Chance(1, 3):
+							fkind = "lost"
+						case cl == "idx-del" && sched.Chance(1, 3):
+							fkind = "404"
+						}
+					}
+				} else if c.FaultKinds && strings.HasPrefix(cl, "man-") && faults < c.MaxFaults && sched.Intn(100) < c.FaultPct/2 {
+					// the operation's own manifest exchange fails (fetch / PUT / final DELETE)
+					fail = true
 				}
 			}
 			if fail {
@@ -568,6 +631,9 @@ func runE2EInner(c *E2ECase, res *E2EResult) {
 			ev := Event{N: len(res.Events), Round: rd, Class: cl, Subject: s, Fail: fail}
 			fmt.Sscanf(pick.ex.Op, "%d", &ev.Op)
 			if cl == "idx-put" {
+				if !fail {
+					everIdx[s] = append(everIdx[s], digest.FromBytes(pick.ex.Body))
+				}
 				var idx ocispec.Index
 				if json.Unmarshal(pick.ex.Body, &idx) == nil {
 					ev.PutList = []int{}
@@ -589,13 +655,37 @@ func runE2EInner(c *E2ECase, res *E2EResult) {
 					ev.Subject = c.Mans[o.Man].Subject
 				}
 			}
+			tagsBefore := reg.Tags(repoName)
 			g.remove(pick)
-			pick.release <- fakereg14.Decision{Fail: fail, Status: 500}
+			dec := fakereg14.Decision{Fail: fail, Status: 500}
+			switch fkind {
+			case "404":
+				dec.Status = 404
+			case "lost":
+				dec.AfterEffect = true
+			}
+			ev.Kind = fkind
+			pick.release <- dec
 			synctest.Wait()
+			statusMu.Lock()
+			ev.Status = statusOf[pick.ex.Seq]
+			statusMu.Unlock()
+			if cl == "idx-del" && ev.Status >= 400 {
+				ev.Fail = true // e.g. 404: the index was deleted by another tag's update
+			}
+			tagsAfter := reg.Tags(repoName)
+			for name, s2 := range tags {
+				if _, was := tagsBefore[name]; was {
+					if _, is := tagsAfter[name]; !is && s2 != ev.Subject {
+						ev.Dropped = append(ev.Dropped, s2)
+					}
+				}
+			}
+			sort.Ints(ev.Dropped)
 			ev.Cap = remote.VerifReferrersStateC14(repo)
 			res.Caps = append(res.Caps, ev.Cap)
 			res.Events = append(res.Events, ev)
-			res.Decisions = append(res.Decisions, Dec{Op: ev.Op, Class: cl, Fail: fail})
+			res.Decisions = append(res.Decisions, Dec{Op: ev.Op, Class: cl, Fail: fail, Kind: fkind})
 		}
 	}
 	wg.Wait()
@@ -661,6 +751,7 @@ func runE2EInner(c *E2ECase, res *E2EResult) {
 		_, res.Live[k] = stored[mans[k].desc.Digest]
 	}
 	res.IndexTagged = make([][]int, c.NSubjects)
+	res.IndexArts = make([][]string, c.NSubjects)
 	tagged := map[digest.Digest]bool{}
 	for name, d := range tg {
 		tagged[d] = true
@@ -679,6 +770,9 @@ func runE2EInner(c *E2ECase, res *E2EResult) {
 				}
 			}
 			res.IndexTagged[s] = l
+			for _, e := range idx.Manifests {
+				res.IndexArts[s] = append(res.IndexArts[s], e.ArtifactType)
+			}
 		}
 	}
 	for d, st := range stored {
@@ -690,6 +784,19 @@ func runE2EInner(c *E2ECase, res *E2EResult) {
 		}
 	}
 	sort.Strings(res.Dangling)
+	res.DanglingOf = make([]int, c.NSubjects)
+	for s := range everIdx {
+		tgn, _ := remote.VerifBuildReferrersTag(subj[s].desc)
+		seenD := map[digest.Digest]bool{}
+		for _, d := range everIdx[s] {
+			// a manifest that some referrers tag points at is current (possibly for another
+			// subject: identical indexes are one manifest), not dangling
+			if _, ok := stored[d]; ok && !seenD[d] && tg[tgn] != d && !tagged[d] {
+				res.DanglingOf[s]++
+			}
+			seenD[d] = true
+		}
+	}
 
 	// the same live manifests on a registry with the Referrers API
 	regB := fakereg14.New(fakereg14.ReferrersAPI)
@@ -765,9 +872,48 @@ func checkE2E(c *E2ECase, res *E2EResult) []failure {
 		aborted
 	)
 	status := make([]int, len(c.Mans))
+	raceHit := false
+	// operations on the same manifest issued concurrently (same round): overlap[k] = they all
+	// returned without a plain error; raced[k] = a push and a delete among them
+	overlap := map[int]bool{}
+	raced := map[int]bool{}
+	overlapErr := map[int]bool{}
+	for k := range c.Mans {
+		rd, touched := lastRound[k]
+		if !touched {
+			continue
+		}
+		np, nd := 0, 0
+		for _, o := range c.Rounds[rd] {
+			if o.Man == k {
+				if o.Kind == "push" {
+					np++
+				} else {
+					nd++
+				}
+				if res.Ops[o.ID].Outcome == "err" {
+					overlapErr[k] = true
+				}
+			}
+		}
+		if np+nd > 1 {
+			overlap[k] = true
+			raced[k] = np > 0 && nd > 0
+		}
+	}
 	for k := range c.Mans {
 		o, touched := last[k]
 		switch {
+		case overlap[k]:
+			// ground truth is the registry: the manifest PUT / DELETE exchanges decide liveness
+			switch {
+			case overlapErr[k]:
+				status[k] = uncertain
+			case res.Live[k]:
+				status[k] = in
+			default:
+				status[k] = out
+			}
 		case !touched:
 			if res.Live[k] {
 				status[k] = in
@@ -809,6 +955,9 @@ func checkE2E(c *E2ECase, res *E2EResult) []failure {
 	for _, e := range res.Events {
 		if e.Fail {
 			failedAny[e.Round]++
+			if e.Kind == "lost" {
+				nFailedDel++ // the PUT took effect, the update stopped before deleting the old index
+			}
 			if e.Class == "idx-del" {
 				nFailedDel++
 				if failedDel[e.Round] == nil {
@@ -820,6 +969,7 @@ func checkE2E(c *E2ECase, res *E2EResult) []failure {
 	}
 	for s := 0; s < c.NSubjects; s++ {
 		l := res.Listings[s]
+		raceHit = false
 		if l.Err != "" {
 			add("list-error", "Referrers(subject %d) failed: %s", s, l.Err)
 			continue
@@ -872,13 +1022,19 @@ func checkE2E(c *E2ECase, res *E2EResult) []failure {
 				add("stale-entry", "subject %d lists manifest %d whose subject is %d", s, it.Man, m.Subject)
 			}
 			if status[it.Man] == out {
-				add("stale-entry", "subject %d lists manifest %d which is not live", s, it.Man)
+				if raced[it.Man] {
+					raceHit = true
+					add("same-manifest-race", "subject %d lists manifest %d which is not in the registry: Push and Delete of that manifest ran concurrently, both returned without error", s, it.Man)
+				} else {
+					add("stale-entry", "subject %d lists manifest %d which is not live", s, it.Man)
+				}
 			}
 			if status[it.Man] != out && (it.ArtifactType != m.expectedType() || !annEq(it.Ann, m.Ann)) {
 				add("decoration", "subject %d manifest %d listed with artifactType %q annotations %v, expected %q %v", s, it.Man, it.ArtifactType, it.Ann, m.expectedType(), m.Ann)
 			}
 		}
 		hasUncertain := false
+		racedSubject := false
 		for k, m := range c.Mans {
 			if m.Subject != s {
 				continue
@@ -886,7 +1042,13 @@ func checkE2E(c *E2ECase, res *E2EResult) []failure {
 			if status[k] == uncertain || status[k] == aborted {
 				hasUncertain = true
 			}
-			if _, ok := got[k]; !ok && status[k] == in {
+			if raced[k] && m.Subject == s {
+				racedSubject = true
+			}
+			if _, ok := got[k]; !ok && status[k] == in && raced[k] {
+				raceHit = true
+				add("same-manifest-race", "subject %d: manifest %d is in the registry but not listed: Push and Delete of that manifest ran concurrently, both returned without error", s, k)
+			} else if _, ok := got[k]; !ok && status[k] == in {
 				add("lost-update", "subject %d: live manifest %d (last op %+v) is not listed; listing %v index %v", s, k, last[k], keysOf(got), res.IndexTagged[s])
 			}
 		}
@@ -929,7 +1091,7 @@ func checkE2E(c *E2ECase, res *E2EResult) []failure {
 			}
 		}
 		// Referrers API registry
-		if !hasUncertain {
+		if !hasUncertain && !(racedSubject && raceHit) {
 			a := res.API[s]
 			am := map[string]Item{}
 			for _, it := range a.Items {
@@ -952,14 +1114,23 @@ func checkE2E(c *E2ECase, res *E2EResult) []failure {
 		for _, o := range ops {
 			r := res.Ops[o.ID]
 			s := c.Mans[o.Man].Subject
-			if r.Outcome != "ok" && failedAny[rd] == 0 {
+			// an earlier operation on this manifest failed: what a later one finds is not determined
+			tainted := false
+			for rd0 := 0; rd0 < rd; rd0++ {
+				for _, o0 := range c.Rounds[rd0] {
+					if o0.Man == o.Man && res.Ops[o0.ID].Outcome == "err" {
+						tainted = true
+					}
+				}
+			}
+			if r.Outcome != "ok" && failedAny[rd] == 0 && !overlap[o.Man] && !tainted {
 				add("unexpected-error", "op %d (%s manifest %d) returned %s without any injected failure: %s", o.ID, o.Kind, o.Man, r.Outcome, r.Err)
 			}
 			if r.Outcome == "idxdel" {
 				if failedDel[rd][s] == 0 {
 					add("idxdel-unjustified", "op %d returned a referrers-index-delete error but no index deletion of subject %d failed in round %d", o.ID, s, rd)
 				}
-				if last[o.Man].ID == o.ID && status[o.Man] != aborted {
+				if last[o.Man].ID == o.ID && status[o.Man] != aborted && !overlap[o.Man] {
 					inIdx := false
 					for _, k := range res.IndexTagged[s] {
 						if k == o.Man {
@@ -973,6 +1144,13 @@ func checkE2E(c *E2ECase, res *E2EResult) []failure {
 						add("idxdel-no-effect", "delete op %d returned a referrers-index-delete error but manifest %d is still in the index %v of subject %d", o.ID, o.Man, res.IndexTagged[s], s)
 					}
 				}
+			}
+		}
+	}
+	for _, e := range res.Events {
+		if e.Fail && strings.HasPrefix(e.Class, "man-") && e.Kind != "lost" {
+			if r, ok := res.Ops[e.Op]; ok && r.Outcome != "err" {
+				add("swallowed-error", "op %d returned %q although its %s exchange was answered %d", e.Op, r.Outcome, e.Class, e.Status)
 			}
 		}
 	}
